@@ -105,7 +105,11 @@ class Aux:
         self.Pm = (np.eye(n) * 0.5).astype(A.dtype)
         self.rows = np.array([1, 0, 2][:m])
         self.cols = np.array([0, 2, 1][:n])
-        self.arrays = [self.x, self.X, self.y, self.Y, self.x0, self.X0, self.v, self.Pm, self.rows, self.cols]
+        # operands of a wider dtype than the operator (complex for a real operator, double for a single-precision one)
+        wide = {"f4": "f8", "f8": "c16", "c8": "c16", "c16": "c16"}[dt]
+        self.xw = P.operand(seed + 6, (n, ), wide, "normal")
+        self.Yw = P.operand(seed + 7, (2, m), wide, "normal")
+        self.arrays = [self.x, self.X, self.y, self.Y, self.x0, self.X0, self.v, self.Pm, self.rows, self.cols, self.xw, self.Yw]
         # caller-owned algorithm objects, shared by every operation of a history (an options object is a value too: using it
         # for one call must not change what the next call with the same object does)
         from cola import linalg as L
@@ -139,6 +143,7 @@ def alphabet():
     A_ = {
         "matvec": (None, lambda A, a: A @ a.x), "matmat": (None, lambda A, a: A @ a.X),
         "rmatvec": (None, lambda A, a: a.y @ A), "rmatmat": (None, lambda A, a: a.Y @ A),
+        "matvec_wide": (None, lambda A, a: A @ a.xw), "rmatmat_wide": (None, lambda A, a: a.Yw @ A),
         "T": (None, lambda A, a: A.T), "H": (None, lambda A, a: A.H), "T_product": (None, lambda A, a: A.T @ a.y),
         "H_dense": (None, lambda A, a: A.H.to_dense()), "to_dense": (None, lambda A, a: A.to_dense()), "densify": (None, lambda A, a: cola.densify(A)),
         "add_self": (None, lambda A, a: (A + A).to_dense()), "sub_array": (None, lambda A, a: (A - np.asarray(A.to_dense())).to_dense()),
